@@ -114,7 +114,12 @@ def reference(binary, root, files, faults, style, tag="x", run_mode=None):
         os.makedirs(d, exist_ok=True)
         vlib.write_tree(d, {name: files[name], "r.yml": rules_text()})
         env = {"VERIF_FAULTS": ",".join(faults)}
-        argv1 = (RUN_ARGV[run_mode] + [f"--json={style}", "-j", "1", name]) if run_mode else ["scan", "-r", "r.yml", f"--json={style}", "-j", "1", name]
+        if run_mode == "scan-json-U":
+            # JSON output together with --update-all: the worker then sends one leading buffer of fix
+            # diffs per file (empty for a file without a fixable finding) before the buffers of matches
+            argv1 = ["scan", "-r", "r.yml", f"--json={style}", "-U", "-j", "1", name]
+        else:
+            argv1 = (RUN_ARGV[run_mode] + [f"--json={style}", "-j", "1", name]) if run_mode else ["scan", "-r", "r.yml", f"--json={style}", "-j", "1", name]
         code, out, err = vlib.run_cli(binary, argv1, d, extra_env=env)
         if vlib.is_crash(code, err):
             res = ("crash", f"reference run crashed on {name}: {err[-300:]!r}")
@@ -129,7 +134,7 @@ def reference(binary, root, files, faults, style, tag="x", run_mode=None):
         if kind == "crash":
             return None, val
         recs.extend(val)
-    any_error = (not run_mode) and any(r.get("severity") == "error" for r in recs)  # `run --json` always exits 0
+    any_error = (run_mode not in RUN_ARGV) and any(r.get("severity") == "error" for r in recs)  # `run --json` always exits 0
     return (sorted(rec_key(r) for r in recs), 1 if any_error else 0), None
 
 
@@ -151,7 +156,7 @@ def explore_config(ex, files, faults, T, style, bound, update_all=False, idx=0, 
         argv = ["scan", "-r", "r.yml", "-U", "."]
         want = None
     else:
-        argv = (RUN_ARGV[run_mode] + [f"--json={style}", "."]) if run_mode else ["scan", "-r", "r.yml", f"--json={style}", "."]
+        argv = ["scan", "-r", "r.yml", f"--json={style}", "-U", "."] if run_mode == "scan-json-U" else (RUN_ARGV[run_mode] + [f"--json={style}", "."]) if run_mode else ["scan", "-r", "r.yml", f"--json={style}", "."]
         want, problem = reference(ex.binary, ex.root, files, faults, style, tag, run_mode)
         if problem:
             vlib.machinery(problem)
@@ -164,7 +169,7 @@ def explore_config(ex, files, faults, T, style, bound, update_all=False, idx=0, 
     def one(prefix, cost):
         """run one schedule; returns the list of (prefix, cost) children"""
         k = next(counter)
-        if update_all:
+        if update_all or run_mode == "scan-json-U":
             pdir = os.path.join(ex.root, f"proj_{tag}_{k % 64}_{threading.get_ident()}")
             os.makedirs(pdir, exist_ok=True)
             vlib.write_tree(pdir, tree)  # private copy, restored before every execution
@@ -211,7 +216,7 @@ def explore_config(ex, files, faults, T, style, bound, update_all=False, idx=0, 
                 # the printed error summary is a function of the findings
                 m2 = re.search(rb"(\d+) error\(s\) found", err)
                 n_err = sum(1 for r in recs if r.get("severity") == "error")
-                if not run_mode and (int(m2.group(1)) if m2 else 0) != n_err:
+                if run_mode not in RUN_ARGV and (int(m2.group(1)) if m2 else 0) != n_err:
                     rep.violation("error-summary-differs-from-error-findings", dict(case, summary=(m2.group(0).decode() if m2 else None), error_findings=n_err))
                 if (1 if code != 0 else 0) != want[1]:
                     rep.violation("exit-status-depends-on-schedule-or-differs-from-per-file-runs", dict(case, code=code, want=want[1]))
@@ -285,7 +290,7 @@ def main(argv):
         tree = dict(files); tree["r.yml"] = rules_text().encode()
         vlib.write_tree(proj, tree)
         rm = case.get("run_mode")
-        argvv = ["scan", "-r", "r.yml", "-U", "."] if case["update_all"] else (RUN_ARGV[rm] + [f"--json={case['style']}", "."]) if rm else ["scan", "-r", "r.yml", f"--json={case['style']}", "."]
+        argvv = ["scan", "-r", "r.yml", "-U", "."] if case["update_all"] else ["scan", "-r", "r.yml", f"--json={case['style']}", "-U", "."] if rm == "scan-json-U" else (RUN_ARGV[rm] + [f"--json={case['style']}", "."]) if rm else ["scan", "-r", "r.yml", f"--json={case['style']}", "."]
         outs = []
         for _ in range(2):
             if case["update_all"]:
@@ -339,6 +344,10 @@ def main(argv):
         flt = [nm] if nm.endswith("g.js") else []
         configs.append((["a.js", "b.js", nm], flt, 1, "stream", 0, False))
         configs.append((["a.js", "b.js", nm], flt, 2, "stream", 2 if thorough else 1, False))
+    # --json together with -U (files with and without fixable findings interleave empty buffers)
+    configs.append((["a.js", "d.js", "b.js", "g.js"], [], 1, "stream", 0, "scan-json-U"))
+    configs.append((["a.js", "d.js", "b.js", "g.js"], [], 2, "compact", 2 if thorough else 1, "scan-json-U"))
+    configs.append((["a.js", "d.js", "b.js", "g.js"], [], 2, "pretty", 1, "scan-json-U"))
     # a file above 3 MB with few lines is eligible like any other
     configs.append((["a.js", "big.js", "b.js"], [], 1, "stream", 0, False))
     configs.append((["a.js", "big.js", "b.js"], [], 2, "stream", 1, False))
